@@ -196,6 +196,15 @@ func enumFaults(profile string, cfg RunConfig, prog *Program) []Fault {
 		}
 	case "C12":
 		out = append(out, Fault{Kind: "close", Mgr: 0, K: 1}, Fault{Kind: "close", Mgr: 0, K: 2})
+	case "C02", "C08":
+		// the context of every cancellable call ends at every profiled point
+		for ti, th := range prog.Threads {
+			for oi, op := range th.Ops {
+				if op.Kind == "call" && op.Ctx == "cancel" {
+					out = append(out, Fault{Kind: "cancel", Thread: ti, OpIdx: oi})
+				}
+			}
+		}
 	}
 	return out
 }
@@ -319,6 +328,12 @@ func TestEnum(t *testing.T) {
 			q := cloneProgram(prog)
 			nf := p.f
 			nf.Role, nf.Site = p.role, p.site
+			if nf.Kind == "cancel" {
+				// the enumerated cancellation is the only one this call gets
+				if op := q.Threads[nf.Thread].Ops[nf.OpIdx]; op != nil {
+					op.CancelW, op.CancelAfter = 1e-9, false
+				}
+			}
 			if nf.Kind == "close" {
 				// K is the number of concurrent Close invocations for close faults; the visit count is kept in AtVisit
 				nf.AtVisit = p.k
